@@ -29,6 +29,7 @@ import (
 	"encoding/binary"
 	"errors"
 	"fmt"
+	"io"
 	"log/slog"
 )
 
@@ -335,7 +336,7 @@ func ReadData(ctx context.Context, log *slog.Logger, reader *bufio.Reader, data 
 
 		case RecCookie:
 			cookie := make([]byte, msg.BodyLen)
-			_, err := reader.Read(cookie)
+			_, err := io.ReadFull(reader, cookie)
 			if err != nil {
 				return err
 			}
